@@ -50,7 +50,40 @@ def parseStore (s : String) : R StoreKind :=
   | "fn" => pure .fn
   | "none" => pure .none
   | "noFn" => pure .noFn
+  | "attrRaises" => pure .attrRaises
   | _ => throw s!"bad store kind {s}"
+
+def parseExport (j : Json) : R ExportMode :=
+  match (fldD j "exportMode" (Json.str "absent")).getStr? with
+  | .ok "absent" => pure .absent
+  | .ok "ok" => pure .ok
+  | .ok "raises" => pure .raises
+  | .ok "garbage" => pure .garbage
+  | .ok "attrRaises" => pure .attrRaises
+  | _ => throw "bad exportMode"
+
+def parseW (j : Json) : R WMode :=
+  match (fldD j "wMode" (Json.str "absent")).getStr? with
+  | .ok "absent" => pure .absent
+  | .ok "ok" => pure .ok
+  | .ok "badKey" => pure .badKey
+  | .ok "badValue" => pure .badValue
+  | .ok "attrRaises" => pure .attrRaises
+  | _ => throw "bad wMode"
+
+def jSection : Option Section → Json
+  | none => Json.null
+  | some .empty => jStr "empty"
+  | some .state => jStr "state"
+  | some .weights => jStr "weights"
+
+def parseSection (j : Json) : R (Option Section) :=
+  if isNull j then pure none else
+  match j.getStr? with
+  | .ok "empty" => pure (some .empty)
+  | .ok "state" => pure (some .state)
+  | .ok "weights" => pure (some .weights)
+  | _ => throw "bad section"
 
 def parseVer (j : Json) : R Ver := do
   match ← fldStr j "k" with
@@ -64,7 +97,8 @@ def parseIn (j : Json) : R In := do
          turn := ← optInt (← fld j "turn"), every := ← fldInt j "every", bust := ← fldBool j "bust",
          namespaces := ← optNatList (← fld j "namespaces"), cm := ← optCache (← fld j "cm"),
          cmFault := ← optNat (← fld j "cmFault"), snapFault := ← fldBool j "snapFault",
-         deltas := ← natList (← fld j "deltas"), script := ← parseScript (← fld j "script") }
+         deltas := ← natList (← fld j "deltas"), script := ← parseScript (← fld j "script"),
+         exportMode := ← parseExport j, wMode := ← parseW j }
 
 def jNatList (l : List Nat) : Json := jArr (l.map jNat)
 def jCalls (l : List (List Nat)) : Json := jArr (l.map jNatList)
@@ -78,7 +112,8 @@ def jSnap : Option SnapRec → Json
 def jOut (o : Out) : Json :=
   jObj [("calls", jCalls o.calls), ("applied", jInt o.applied), ("clamps", jInt o.clamps),
         ("version", jStr (toString o.version)), ("invalidated", jNat o.invalidated),
-        ("cm", jOptCache o.cm), ("snap", jSnap o.snap), ("raised", jBool o.raised)]
+        ("cm", jOptCache o.cm), ("snap", jSnap o.snap), ("raised", jBool o.raised),
+        ("snapStore", jSection o.snapStore)]
 
 def strInt (s : String) : R Int :=
   match s.toInt? with
@@ -99,7 +134,8 @@ def parseOut (j : Json) : R Out := do
   pure { calls := ← parseCalls (← fld j "calls"), applied := ← fldInt j "applied",
          clamps := ← fldInt j "clamps", version := ← strInt (← fldStr j "version"),
          invalidated := ← fldNat j "invalidated", cm := ← optCache (← fld j "cm"),
-         snap := ← parseSnap (← fld j "snap"), raised := ← fldBool j "raised" }
+         snap := ← parseSnap (← fld j "snap"), raised := ← fldBool j "raised",
+         snapStore := ← parseSection (fldD j "snapStore" Json.null) }
 
 /-- Model run. -/
 def handle (j : Json) : R Json := do pure (jOut (apply (← parseIn j)))
@@ -129,7 +165,8 @@ def parseTurn (j : Json) : R TurnIn := do
   pure { enabled := ← fldBool j "enabled", store := ← parseStore (← fldStr j "store"),
          turn := ← optInt (← fld j "turn"), every := ← fldInt j "every", bust := ← fldBool j "bust",
          namespaces := ← optNatList (← fld j "namespaces"), cmFault := ← optNat (← fld j "cmFault"),
-         deltas := ← natList (← fld j "deltas"), script := ← parseScript (← fld j "script") }
+         deltas := ← natList (← fld j "deltas"), script := ← parseScript (← fld j "script"),
+         exportMode := ← parseExport j, wMode := ← parseW j }
 
 def parseRec (j : Json) : R ApplyRec := do
   pure ⟨← strInt (← fldStr j "version"), ← fldInt j "applied", ← fldInt j "clamps",
@@ -190,8 +227,23 @@ def handleHistSpec (j : Json) : R Json := do
   | "version_history" => pure (jBool law)
   | c => throw s!"unknown clause {c}"
 
+/-! T4 → Apply composition: keys cross as strings. -/
+def keyOf (j : Json) : R (List Nat) := do pure ((← j.getStr?).toList.map Char.toNat)
+
+def keyList (j : Json) : R (List (List Nat)) := do
+  let mut out : List (List Nat) := []
+  for x in ← j.getArr? do out := out ++ [← keyOf x]
+  pure out
+
+/-- Monitor: `canonHandoffB approved calls`. -/
+def handleCanon (j : Json) : R Json := do
+  let approved ← keyList (← fld j "approved")
+  let mut calls : List (List (List Nat)) := []
+  for c in ← fldArr j "calls" do calls := calls ++ [← keyList c]
+  pure (jBool (canonHandoffB approved calls))
+
 def routes : List (String × (Json → R Json)) :=
   [("apply", handle), ("apply.legacy", handleLegacy), ("apply.spec", handleSpec),
-   ("apply.hist", handleHist), ("apply.histspec", handleHistSpec)]
+   ("apply.hist", handleHist), ("apply.histspec", handleHistSpec), ("apply.canon", handleCanon)]
 
 end Driver.HApply
